@@ -588,7 +588,11 @@ def run(chk):
     ]
     chk.gaps += ["Close of individual TCP mailbox elements is not counted (constructors unexported); the Mailboxes map is counted as a whole",
                  "context-internal LocalArchetypeResources (.pc, .stack, ref cells) are not instrumented",
-                 "interleavings inside Run's check/poll/notify regions are covered by TLC exhaustively and by free-running races, not by deterministic replay"]
+                 "interleavings inside Run's check/poll/notify regions are covered by TLC exhaustively and by free-running races, not by deterministic replay",
+                 "nested cases (nproto): the outer sections do not use the nested resource and the inner archetypes do not serve its request "
+                 "protocol (that is what the free-running 'nested' mix does, with ONE inner context); the cases on three inner contexts are the "
+                 "generator's two-context walks mapped into three contexts plus seeded commands for the third, not walks of a three-context graph; "
+                 "the quick tier replays a third of the edge cover per seed (seeds s, s+1, s+2 together replay every edge), the thorough tier all of it"]
     return chk.finish(rule="edge-covering + seeded random walks of MCLifecycleGen's state graph replayed command by command on the real "
                            "MPCalContext (gates, goroutine states), the same for MCNestedGen (outer context + resources.NewNested around "
                            "2-3 gated inner contexts, each of which may end by itself at any point), plus seeded free-running races of Run/Stop over leaf, map, nested, "
